@@ -236,6 +236,7 @@ class Interp:
         self.callstack: list = []
         self.dropped: set = set()    # constructs dropped (logging, regulariser literals ...)
         self._module_envs: dict = {}
+        self.int_arrays: dict = {}   # id -> array: arrays of integer dtype (the one dtype distinction that is modelled)
 
     # ---- fresh names
     def fresh_name(self, base: str) -> str:
